@@ -284,6 +284,14 @@ func genCtorLeaseSet2Defects(g *G) {
 	em(0, "-", "4:31", 1, "keylen-vs-type")
 	em(0, "-", "0:32", 1, "keylen-vs-type")
 	em(0, "-", "4:32,5:33", 1, "keylen-vs-type")
+	// the defective key at a later position, behind keys of every kind (known type, unknown / experimental type,
+	// several of them): a per-key check that stops at the first key it has no rule for must not hide it
+	for _, before := range []string{"65280:10", "65281:0", "9:7", "4:32,65280:10", "65280:10,4:32", "65280:10,65281:3,0:256"} {
+		em(0, "-", before+",4:31", 1, "keylen-vs-type")
+		em(0, "-", before+",0:32", 1, "keylen-vs-type")
+		em(0, "-", before+",4:32:31", 1, "keylen-vs-data")
+		em(0, "-", before+",4:31:32", 1, "keylen-vs-data")
+	}
 	em(1, "-", "4:32", 1, "offline-flag-without-block")
 	em(0, "7", "4:32", 1, "offline-block-without-flag")
 	for _, f := range []int{8, 0x10, 0x8000, 0xFFF8} {
